@@ -208,6 +208,8 @@ def vacuity(summary, mode):
     missing = [c for c in ctors if summary.get("by_op", {}).get("Ctor:" + c, 0) == 0]
     if missing:
         raise vlib.Infra("vacuous enumeration: generic constructors never exercised: %s" % missing)
+    if summary.get("by_op", {}).get("Equals:eps", 0) == 0:
+        raise vlib.Infra("vacuous enumeration: no Equals case with the epsilon dimension")
     rk = summary.get("recv_kinds", {})
     for need in ("d/zeros", "d/nz", "s/zeros", "z/zeros", "s/nz", "s/mixo", "z/mixo"):
         if rk.get(need, 0) == 0:
